@@ -132,7 +132,9 @@ def tolerant_ok(pid_list=("C01", "C03", "C14")):
 
 
 def run(ctx, regimes_quick, regimes_thorough, rule, assumptions, extra_bins=(), extra_stream=None,
-        translate=(), extra_modules=()):
+        translate=(), extra_modules=(), also_judge=None):
+    """`also_judge(ctx, traces) -> bool`: a further driver stream judging the same system traces
+    (called for every batch of traces before they are dropped)."""
     pid = ctx.pid
     if translate:
         vlib.translate(ctx, list(translate))
@@ -144,8 +146,11 @@ def run(ctx, regimes_quick, regimes_thorough, rule, assumptions, extra_bins=(), 
         strict = f"sysobjects {pid}"
         tol = f"sysobjects {pid} tolerant" if tolerant_ok() else strict
         # 1. hand-written scenarios and minimised past failures first, then the recorded findings
-        found |= judge(ctx, strict, corpus(ctx, vlib.VERIF / "corpus" / "system", "corpus"))
-        found |= judge(ctx, strict, corpus(ctx, FINDINGS_DIR, "finding"))
+        for directory, tag in ((vlib.VERIF / "corpus" / "system", "corpus"), (FINDINGS_DIR, "finding")):
+            traces = corpus(ctx, directory, tag)
+            found |= judge(ctx, strict, traces)
+            if also_judge is not None:
+                found |= bool(also_judge(ctx, traces))
         # 2. generated histories per regime (traces are large: judged and dropped regime by regime)
         k0 = 0
         for name, n, length, extra in regimes:
@@ -154,6 +159,8 @@ def run(ctx, regimes_quick, regimes_thorough, rule, assumptions, extra_bins=(), 
             always_due = any(a.startswith("before_next=") for a in extra)
             traces = by.get(name, [])
             found |= judge(ctx, tol if always_due else strict, traces)
+            if also_judge is not None:
+                found |= bool(also_judge(ctx, traces))
             for tr in traces:
                 for f in Path(tr).parent.glob(Path(tr).name + "*"):
                     f.unlink(missing_ok=True)
